@@ -1,3 +1,3 @@
 SPECIFICATION Spec
 CONSTANTS M = 3 V = 2 Sample = 0 OneVersion = TRUE OlderMain = FALSE
-INVARIANTS NoPanic SelectedIsMaxSeen Confluent Sufficient Minimal
+INVARIANTS NoPanic SelectedIsMaxSeen Confluent Sufficient Minimal PrunedBelowFull
